@@ -896,8 +896,48 @@ func genCase(id int, r *rng.R) (*Case, string) {
 	g.dupBig = g.dup && r.Chance(1, 4)
 	g.emptyKey = r.Chance(1, 8)
 	g.keys = mkKeys(r, g.emptyKey)
+	var scripted []*Op
+	var doc *T
+	if r.Chance(1, 12) {
+		// an object of 17..40 members whose first / middle / last key occurs twice, looked up after a full load
+		n := 17 + r.Intn(24)
+		doc = &T{K: '{'}
+		for i := 0; i < n; i++ {
+			doc.Keys = append(doc.Keys, fmt.Sprintf("m%d", i))
+			doc.A = append(doc.A, g.scalar())
+			g.keys = append(g.keys, fmt.Sprintf("m%d", i))
+		}
+		pos := []int{0, 0, n / 2, n - 1}[r.Intn(4)]
+		other := r.Intn(n)
+		for other == pos {
+			other = r.Intn(n)
+		}
+		if pos == 0 && r.Bool() {
+			other = n - 1
+		}
+		doc.Keys[other] = doc.Keys[pos]
+		doc.A[other] = &T{K: 'S', S: "second"}
+		doc.A[pos] = &T{K: 'S', S: "one"}
+		key := doc.Keys[pos]
+		if r.Bool() {
+			scripted = append(scripted, &Op{Name: "LOAD"})
+		} else {
+			scripted = append(scripted, &Op{Name: "LOOK", Path: []Sel{{Key: "absent", IsKey: true}}})
+		}
+		scripted = append(scripted, &Op{Name: "LOOK", Path: []Sel{{Key: key, IsKey: true}}})
+		switch r.Intn(3) {
+		case 0:
+			scripted = append(scripted, &Op{Name: "UNSET", Key: key})
+		case 1:
+			scripted = append(scripted, &Op{Name: "SET", Key: key, Repr: 'F', Val: &T{K: 'T'}})
+		}
+		scripted = append(scripted, &Op{Name: "LOOK", Path: []Sel{{Key: key, IsKey: true}}}, &Op{Name: "MARSHAL"})
+		g.keys = append(g.keys, "absent")
+	} else {
+		doc = g.document()
+	}
 	c := &Case{ID: fmt.Sprintf("c%d", id), Keys: sortedKeys(g.keys)}
-	c.Doc = g.document()
+	c.Doc = doc
 	c.Repr = "RRRKLLF"[r.Intn(7)]
 	var styl *rng.R
 	if r.Chance(2, 3) {
@@ -910,10 +950,15 @@ func genCase(id int, r *rng.R) (*Case, string) {
 	if r.Chance(1, 4) {
 		nops = 1 + r.Intn(8)
 	}
+	if nops < len(scripted)+1 {
+		nops = len(scripted) + 1
+	}
 	for i := 0; i < nops; i++ {
 		cur := liveTree(&root)
 		var o *Op
-		if i == nops-1 || cur == nil {
+		if i < len(scripted) {
+			o = scripted[i]
+		} else if i == nops-1 || cur == nil {
 			o = &Op{Name: "MARSHAL"}
 		} else {
 			o = g.genOp(cur)
